@@ -199,4 +199,21 @@ Section Compressed.
     pose proof (fresh_run_outputs pre ops ids cur) as Hm. fold x in Hm. rewrite <- Hm.
     induction H as [|zo po zs ps [_ Hd] _ IH]; cbn [map]; constructor; auto.
   Qed.
+  (* ... and crash safety of a named gzip / xz exporter: at any instant, a file under a final name is the one that was there before, or one
+     complete compressed stream that decompresses to one of the exporter's outputs *)
+  Theorem exporter_named_compressed_prefix (f0 : fs) pre ops ids n0 k n c : let x := xrun (x_new pre) ops in
+    fs_run f0 (firstn k (named_trace n0 (czip cstate cinit crun cfinish cinit (run_wops (x_new pre) ops ids ++ destroy_wops x) true) true)) (Final n) = Some c ->
+    f0 (Final n) = Some c \/ exists p, (In p (x_closed x) \/ p = destroy x) /\ decompress c = Some p.
+  Proof.
+    intros x H. apply named_prefix_ok in H. destruct H as [H|H]; [left; exact H|right].
+    pose proof (czip_transparent cstate cinit crun cfinish decompress codec_ok true (run_wops (x_new pre) ops ids ++ destroy_wops x) n0) as Ht.
+    pose proof (fresh_run_outputs pre ops ids n0) as Hm. fold x in Hm.
+    assert (Hex : exists po, In po (outputs_of n0 [] (run_wops (x_new pre) ops ids ++ destroy_wops x) true) /\ decompress c = Some (snd po)).
+    { revert H. induction Ht as [|zo po zs ps [_ Hd] _ IH]; intros Hin; [destruct Hin|].
+      destruct Hin as [Heq|Hin]; [exists po; split; [left; reflexivity|rewrite Heq in Hd; exact Hd]|].
+      destruct (IH Hin) as (po' & Hp & Hd'). exists po'. split; [right; exact Hp|exact Hd']. }
+    destruct Hex as (po & Hin & Hd). exists (snd po). split; [|exact Hd].
+    assert (Hs : In (snd po) (map snd (outputs_of n0 [] (run_wops (x_new pre) ops ids ++ destroy_wops x) true))) by (apply in_map; exact Hin).
+    rewrite Hm in Hs. apply in_app_or in Hs. destruct Hs as [Hs|[<-|[]]]; [left; apply in_rev; exact Hs|right; reflexivity].
+  Qed.
 End Compressed.
